@@ -1,4 +1,9 @@
-//! Scripted buildpack executable (run through symlinks named detect / build / anything else).
+//! The scripted buildpack executable (multi-call through its name, like a real libcnb.rs buildpack).
 fn main() {
+    // an earlier detect/build of ANOTHER buildpack in this same process (libcnb_runtime_detect/_build are public for
+    // programmatic use): whatever it read must not leak into the real invocation that follows
+    if let Some(root) = std::env::var_os("VBP_WARMUP_ROOT") {
+        vharness::bp::warmup(std::path::Path::new(&root));
+    }
     libcnb::libcnb_runtime(&vharness::layermodel::HB);
 }
